@@ -826,7 +826,10 @@ c_rule_loadpX (OrcCompiler *p, void *user, OrcInstruction *insn)
       }
     }
   } else if (p->vars[insn->src_args[0]].vartype == ORC_VAR_TYPE_CONST) {
-    if (p->vars[insn->src_args[0]].size <= 4) {
+    /* the width of the load decides, not the size the constant was declared
+     * with: a 64-bit opcode takes all 64 bits of the value, as emulation and
+     * the other back ends do ("addq d, s, c" with ".const 4 c -1" adds -1) */
+    if (size <= 4) {
       ORC_ASM_CODE(p,"    %s = 0x%08x; /* %d or %gf */\n", dest,
           (unsigned int)p->vars[insn->src_args[0]].value.i,
           (int)p->vars[insn->src_args[0]].value.i,
